@@ -286,7 +286,7 @@ type archiveableDataBlock struct {
 	dataBlock
 	earliestTime     time.Time
 	requestedSamples int
-	complete         chan struct{}
+	complete         chan archiveableDataBlock // the filled block is handed to the file writer through it
 	active           bool
 }
 
@@ -401,8 +401,10 @@ func (ds *AnySource) archiveNewDataBlock(block *dataBlock) {
 
 	requestFilled := ab.nSamp >= ab.requestedSamples
 	if requestFilled {
-		close(ab.complete)
+		// Hand a copy to the writer goroutine: it must not read ds.archiveBlock, which
+		// this goroutine keeps using (and the next request re-initializes).
 		ab.active = false
+		ab.complete <- *ab
 	}
 }
 
@@ -1075,11 +1077,10 @@ func (ds *AnySource) StopTriggerCoupling() error {
 	return ds.broker.StopTriggerCoupling()
 }
 
-func (ds *AnySource) writeNPZData(file *os.File) error {
+func (ds *AnySource) writeNPZData(file *os.File, ab archiveableDataBlock) error {
 	wz := npz.NewWriter(file)
 	defer wz.Close()
 
-	ab := ds.archiveBlock
 	channelNames := ds.ChannelNames()
 	firstFrame := make([]int64, len(ab.segments))
 	for i, stream := range ab.segments {
@@ -1112,14 +1113,15 @@ func (ds *AnySource) ArchiveDataBlock(N int, file *os.File, finalName string) er
 	ds.archiveBlock.earliestTime = time.Now()
 	ds.archiveBlock.requestedSamples = N
 	ds.archiveBlock.segments = nil
-	ds.archiveBlock.complete = make(chan struct{})
+	complete := make(chan archiveableDataBlock, 1) // buffered: the core loop never waits for the writer
+	ds.archiveBlock.complete = complete
 	ds.archiveBlock.active = true
 
-	// Launch this goroutine, which will execute when the ds.archiveBlock.complete channel is closed
+	// Launch this goroutine, which will execute when the filled block arrives on the channel
 	go func() {
 		// When the archiveBlock is filled, write to npz file.
-		<-ds.archiveBlock.complete
-		if err := ds.writeNPZData(file); err != nil {
+		ab := <-complete
+		if err := ds.writeNPZData(file, ab); err != nil {
 			file.Close()
 		}
 
